@@ -92,8 +92,11 @@ theorem disabled_forwards (m : Maps) (frame mac : Bytes) (hmac : (frame.drop 6).
     unfold runBody
     simp
 
-/-- **Non-IP.**  A frame whose ethertype field is neither IPv4 nor IPv6 is forwarded in every mode, whatever
-    the maps hold; so is a frame too short for an Ethernet header. -/
+/-- **Non-IP.**  A frame whose ethertype field at offset 12 is neither IPv4 nor IPv6 is forwarded in every mode,
+    whatever the maps hold; so is a frame too short for an Ethernet header.  NOTE: "non-IP" is the program's
+    notion.  Frames that carry an IP packet behind a VLAN tag (0x8100/0x88a8/0x9100/0x9200) or a PPPoE session
+    header (0x8864) fall under this theorem too and are therefore never validated: finding D51
+    (`excl_D51`, `D51_frames_forwarded`, `D51_witness`). -/
 theorem nonip_forwards (m : Maps) (frame : Bytes)
     (h : frame.length < 14 ∨ ((frame.drop 12).take 2 ≠ [0x08, 0x00] ∧ (frame.drop 12).take 2 ≠ [0x86, 0xdd])) :
     (run m frame).ret = TC_ACT_OK := by
@@ -151,17 +154,18 @@ theorem loose_v6_as_coded (m : Maps) (frame mac src : Bytes) (hf : V6Frame frame
 
 /-! ## bindings take effect exactly as written -/
 
-/-- **AddBinding as written.**  After `AddBinding(mac, a.b.c.d)` the program's view of `mac`'s binding is:
-    IPv4 valid, address `a.b.c.d` in wire order, no IPv6 part, the manager's current mode. -/
+/-- **AddBinding as written.**  After `AddBinding(mac, a.b.c.d)` the program's view of `mac`'s binding is the
+    previous one (a zero record if there was none) with exactly what was written changed: IPv4 valid, address
+    `a.b.c.d` in wire order, the manager's current mode.  An IPv6 binding stays (before fix c607b4f it was erased). -/
 theorem binding_as_written (g : Mgr) (m : Maps) (mac : Bytes) (a b c d : UInt8) :
     bindingOf (addBinding g m mac (some [a, b, c, d])) mac =
-      some { addr4 := [d, c, b, a], valid4 := 1, mode := g.mode } ∧
+      some { ((bindingOf m mac).getD {}) with addr4 := [d, c, b, a], valid4 := 1, mode := g.mode } ∧
     ([d, c, b, a] : Bytes).reverse = [a, b, c, d] := by
   refine ⟨?_, rfl⟩
   unfold bindingOf addBinding
   simp only [AMap.lookup_insert_self, Option.bind_some]
   rw [leBytes4_beNat]
-  exact Binding.decode_encode _ rfl rfl
+  exact Binding.decode_encode _ rfl (existing_lengths m mac).2
 
 /-- **AddBindingV6 as written.**  It sets the IPv6 part and the mode and keeps the IPv4 part of an existing
     binding. -/
@@ -170,17 +174,24 @@ theorem binding_v6_as_written (g : Mgr) (m : Maps) (mac ip6 : Bytes) (h6 : ip6.l
       some { ((bindingOf m mac).getD {}) with addr6 := ip6, valid6 := 1, mode := g.mode } := by
   unfold bindingOf addBindingV6
   simp only [AMap.lookup_insert_self, Option.bind_some]
-  apply Binding.decode_encode
-  · cases hb : (AMap.lookup m.bindings (macKey mac)).bind Binding.decode with
-    | none => rfl
-    | some b =>
-      cases hl : AMap.lookup m.bindings (macKey mac) with
-      | none => rw [hl] at hb; simp at hb
-      | some v => rw [hl] at hb; exact (decode_lengths hb).1
-  · exact h6
+  exact Binding.decode_encode _ (existing_lengths m mac).1 h6
 
-/-- **RemoveBinding as written**, and neither operation touches another MAC's record. -/
-theorem unbinding_as_written (g : Mgr) (m : Maps) (mac mac' : Bytes) (ip : Option Bytes) (hne : macKey mac' ≠ macKey mac) :
+/-- **Dual stack.**  `AddBindingV6` then `AddBinding` (or the other way round) leaves both addresses bound. -/
+theorem dual_stack_as_written (g : Mgr) (m : Maps) (mac ip6 : Bytes) (h6 : ip6.length = 16) (a b c d : UInt8) :
+    (∃ x, bindingOf (addBinding g (addBindingV6 g m mac (some ip6)) mac (some [a, b, c, d])) mac = some x ∧
+      x.valid4 = 1 ∧ x.addr4 = [d, c, b, a] ∧ x.valid6 = 1 ∧ x.addr6 = ip6) ∧
+    (∃ x, bindingOf (addBindingV6 g (addBinding g m mac (some [a, b, c, d])) mac (some ip6)) mac = some x ∧
+      x.valid4 = 1 ∧ x.addr4 = [d, c, b, a] ∧ x.valid6 = 1 ∧ x.addr6 = ip6) := by
+  constructor
+  · refine ⟨_, (binding_as_written g _ mac a b c d).1, rfl, rfl, ?_, ?_⟩ <;>
+      rw [binding_v6_as_written g m mac ip6 h6] <;> rfl
+  · refine ⟨_, binding_v6_as_written g _ mac ip6 h6, ?_, ?_, rfl, rfl⟩ <;>
+      rw [(binding_as_written g m mac a b c d).1] <;> rfl
+
+/-- **RemoveBinding as written**, and neither operation touches another MAC's record (6-byte MAC addresses: the
+    manager refuses every other length). -/
+theorem unbinding_as_written (g : Mgr) (m : Maps) (mac mac' : Bytes) (ip : Option Bytes)
+    (_hm : mac.length = 6) (_hm' : mac'.length = 6) (hne : macKey mac' ≠ macKey mac) :
     bindingOf (removeBinding m mac) mac = none ∧
     bindingOf (removeBinding m mac) mac' = bindingOf m mac' ∧
     bindingOf (addBinding g m mac ip) mac' = bindingOf m mac' ∧
@@ -194,14 +205,23 @@ theorem mac_keys_distinct (a b c d e f a' b' c' d' e' f' : UInt8)
     macKey [a, b, c, d, e, f] ≠ macKey [a', b', c', d', e', f'] :=
   fun hk => h (macKey_inj a b c d e f a' b' c' d' e' f' hk)
 
-/-- **SetMode as written**: it becomes the mode in force for every MAC without a binding (bindings keep the
-    mode they were added with), and it is the mode later bindings get. -/
-theorem setmode_as_written (g : Mgr) (m : Maps) (mode : UInt8) (mac : Bytes) (hnb : bindingOf m mac = none) :
-    modeInForce (setMode g m mode).2 mac = mode ∧ (setMode g m mode).1.mode = mode := by
-  unfold modeInForce bindingOf setMode at *
-  simp only [] at hnb ⊢
-  rw [hnb]
-  simp
+/-- **SetMode as written**: the mode set is the mode in force for EVERY MAC — bound or not — and it is the mode
+    later bindings get; nothing else of a binding changes.  (Before fix 789ff35 bound subscribers kept the mode
+    they were added with.) -/
+theorem setmode_as_written (g : Mgr) (m : Maps) (mode : UInt8) (mac : Bytes) :
+    modeInForce (setMode g m mode).2 mac = mode ∧ (setMode g m mode).1.mode = mode ∧
+    bindingOf (setMode g m mode).2 mac = (bindingOf m mac).map fun b => { b with mode := mode } := by
+  refine ⟨?_, rfl, bindingOf_setMode g m mode mac⟩
+  unfold modeInForce
+  rw [bindingOf_setMode]
+  cases bindingOf m mac with
+  | none => rfl
+  | some b => rfl
+
+/-- A network whose mask is not a prefix mask is refused (before fix c709cde it installed 0.0.0.0/0). -/
+theorem range_mask_refused (m : Maps) (ip mask : Bytes) (h : maskLen mask = none) :
+    addAllowedRangeMask m ip mask = none := by
+  unfold addAllowedRangeMask; rw [h]; rfl
 
 /-- **AddAllowedRange as written.**  After adding `net/len` the sources the program finds in an allowed range
     are exactly those it found before plus the addresses of `net/len`. -/
@@ -243,9 +263,22 @@ def w51 : Bytes :=
   [0xff,0xff,0xff,0xff,0xff,0xff, 0x02,0,0,0,0,0x01, 0x81,0x00, 0x00,0x64, 0x08,0x00,
    0x45,0,0,28, 0,0,0,0, 64,17,0,0, 10,0,0,6, 8,8,8,8, 1,2,3,4,5,6,7,8]
 
-/-- the frame carries an 802.1Q / 802.1ad tag where the program expects the ethertype: exclusion clause of D51 -/
+/-- exclusion clause of D51: where the program expects the ethertype of the IP payload the frame carries a VLAN
+    tag (TPID 0x8100, 0x88a8, 0x9100, 0x9200) or a PPPoE session header (0x8864) — the IP header, if any, lies
+    deeper and the program never looks at it.  (The driver attributes a verdict to D51 only if, in addition, the
+    frame was FORWARDED although its inner source should have been refused.) -/
 def excl_D51 (frame : Bytes) : Bool :=
-  decide ((frame.drop 12).take 2 = [0x81, 0x00] ∨ (frame.drop 12).take 2 = [0x88, 0xa8])
+  let e := (frame.drop 12).take 2
+  decide (e = [0x81, 0x00] ∨ e = [0x88, 0xa8] ∨ e = [0x91, 0x00] ∨ e = [0x92, 0x00] ∨ e = [0x88, 0x64])
+
+/-- Every frame the clause describes is forwarded in every mode (it is "non-IP" for the program). -/
+theorem D51_frames_forwarded (m : Maps) (frame : Bytes) (h : excl_D51 frame = true) :
+    (run m frame).ret = TC_ACT_OK := by
+  apply nonip_forwards
+  right
+  unfold excl_D51 at h
+  simp only [decide_eq_true_eq] at h
+  constructor <;> intro he <;> rw [he] at h <;> simp at h
 
 /-- **D51, witness.**  Strict mode, 02:00:00:00:00:01 bound to 10.0.0.5: the tagged frame sourced from
     10.0.0.6 is forwarded (the same frame without the tag is dropped).  Tagged frames are not `V4Frame`s, which
